@@ -30,6 +30,7 @@ GROUPS = [
     ("+c01", r"^combinator::OrNot\[IterParser\]", ["C01"]),
     ("+c04", r"^combinator::(Repeated|SeparatedBy|IntoIter|IterConfigure|TryIterConfigure|Collect|CollectExactly)\[Parser\]::go|^combinator::(NestedIn|Memoized)\[|^recursive::Recursive\[|^recovery::|^regex::Regex\[|^private::", ["C04"]),
     ("+c05", r"^recovery::|^combinator::(SeparatedBy|Repeated)\[|^combinator::Validate\[|^combinator::NestedIn\[", ["C05"]),
+    ("+c20", r"^recovery::|^combinator::(Repeated|SeparatedBy|Collect|CollectExactly|Foldl|FoldlWith|Foldr|FoldrWith)\[Parser\]::go|^pratt::Pratt::pratt_go|^combinator::Not\[", ["C20"]),
     ("+c06", r"^primitive::(End|Just|OneOf|NoneOf|Any|AnyRef|Select|SelectRef|Custom)\[|^combinator::(Filter|TryMap|TryMapWith|Not)\[", ["C06"]),
 ]
 
